@@ -527,6 +527,38 @@ func poolHelper(f *ssa.Function) bool {
 	return false
 }
 
+// poolRemover: a pool helper that takes an entry out of the pool (writes through its pool parameter).
+func poolRemover(f *ssa.Function) bool {
+	if !poolHelper(f) || len(f.Blocks) == 0 {
+		return false
+	}
+	writes := false
+	allInstrs(f, func(in ssa.Instruction) {
+		if st, ok := in.(*ssa.Store); ok && !rootedInLocal(st.Addr) {
+			writes = true
+		}
+		if ci, ok := in.(ssa.CallInstruction); ok {
+			if g := ci.Common().StaticCallee(); g != nil && g != f && poolHelper(g) && poolRemoverDepth(g, 1) {
+				writes = true
+			}
+		}
+	})
+	return writes
+}
+
+func poolRemoverDepth(f *ssa.Function, d int) bool {
+	if d > 3 || !poolHelper(f) || len(f.Blocks) == 0 {
+		return false
+	}
+	w := false
+	allInstrs(f, func(in ssa.Instruction) {
+		if st, ok := in.(*ssa.Store); ok && !rootedInLocal(st.Addr) {
+			w = true
+		}
+	})
+	return w
+}
+
 // poolDerived: the value flows from the result of a pool helper (directly,
 // through a dereference/conversion, or through an out-parameter of a call that
 // consumed a pool-derived value, e.g. decoder.Decode(raw, &x)).
@@ -738,7 +770,46 @@ func (e *omegaEnv) ruleNoMutationBeforeErrorF(rule string, exempt map[string]str
 				}
 				key := fmt.Sprintf("%s · %s after %s", omegaKey(f), x.desc, m.desc)
 				if ok, why := e.migrationExempt(m.in); ok {
-					c.OK(rule, key, m.in.Pos(), "exempt by shape: %s", why)
+					// removing an entry from the raw pool is representation-preserving only when the entry lives on in the
+					// dictionary: on the way to this error exit the removal must be followed by a dictionary insert of the
+					// pool-derived entry (otherwise the failing call has destroyed it)
+					lost := false
+					if ci, isCall := m.in.(ssa.CallInstruction); isCall && poolRemover(ci.Common().StaticCallee()) && x.desc != "PANIC" {
+						// (a PANIC exit discards the whole working context, pool included: C10)
+						isReinsert := func(y ssa.Instruction) bool {
+							mu, isMU := y.(*ssa.MapUpdate)
+							return isMU && poolDerived(mu.Value, 0)
+						}
+						// nothing was removed on the edges where the helper handed back nothing
+						nothing := map[edge]bool{}
+						if cv, isVal := m.in.(ssa.Value); isVal {
+							for _, ed := range condEdges(f, func(v ssa.Value) (bool, bool) {
+								bo, isB := v.(*ssa.BinOp)
+								if !isB || (bo.Op != token.EQL && bo.Op != token.NEQ) {
+									return false, false
+								}
+								isNil := func(z ssa.Value) bool { k, isC := z.(*ssa.Const); return isC && k.Value == nil }
+								if bo.X == cv && isNil(bo.Y) || bo.Y == cv && isNil(bo.X) {
+									return true, bo.Op == token.EQL
+								}
+								return false, false
+							}) {
+								nothing[ed] = true
+							}
+						}
+						blockEdge := func(ed edge) bool { return notOK[ed] || nothing[ed] }
+						_, after := findPathF(pathQuery{start: m.in, target: func(y ssa.Instruction) bool { return y == x.in }, blocker: isReinsert, edgeBlock: blockEdge})
+						_, before := findPathF(pathQuery{fn: f, target: func(y ssa.Instruction) bool { return y == m.in }, blocker: isReinsert})
+						if after && before {
+							lost = true
+						}
+					}
+					if !lost {
+						c.OK(rule, key, m.in.Pos(), "exempt by shape: %s", why)
+						continue
+					}
+					bad++
+					c.Bad(rule, key, m.in.Pos(), "the entry is removed from the raw key-val pool and a path then reaches the %s exit at %s without the entry having been put into the dictionary: a failing call loses stored state", x.desc, c.pos(x.in.Pos()))
 					continue
 				}
 				ek := f.Name() + " · " + x.desc + " · " + mutKind(m.desc)
